@@ -45,6 +45,29 @@ def sibling_control(match_keys, vary_key):
     return f
 
 
+def c17_control(e, g):
+    """C17: every other forwarded call of the same operator with the same authorisers toward the same target that the
+    specification accepts (another argument kind, or the function that takes no argument)"""
+    if not e['exp']['ok'] or e['act']['name'] != 'Execute':
+        return sibling_control(["op", "auth", "acct", "target"], "arg")(e, g)
+    a = e['act']
+    alts = []
+    for ei in g.out[e['_pre']]:
+        o = g.edges[ei]
+        b = o['act']
+        if o is e or not o['exp']['ok'] or b['name'] != 'Execute':
+            continue
+        if all(b.get(k) == a.get(k) for k in ("op", "auth", "target")) and (b.get('fn'), b.get('arg')) != (a.get('fn'), a.get('arg')):
+            alts.append([b])
+    # one per (function, argument kind)
+    seen, out = set(), []
+    for x in alts:
+        k = (x[0].get('fn'), x[0].get('arg'))
+        if k not in seen:
+            seen.add(k); out.append(x)
+    return out[:6] or None
+
+
 def c18_control(e, g):
     """C18: the same request toward another destination, or for another registered token (other salt / other
     canonical token, same caller, payer, gas and destination) that the specification also accepts - the
@@ -135,6 +158,25 @@ def other_amount_control(e, g):
                 all(b.get(k) == a.get(k) for k in a if k != 'amt'):
             alts.append([b])
     return alts[:3] or None
+
+
+FEES_EV = ["gas_paid", "gas_added", "gas_collected", "gas_refunded", "operator_added", "operator_removed", "ownership_transferred"]
+
+
+def fees_job(need, upstream=()):
+    """the operators contract deployed as the gas service's collector (spec/Fees.tla): fees leave only through a
+    forwarded call of a current operator.  `upstream`: guards of the contract in front (the operators contract seen
+    from the gas service's property)"""
+    return {"kind": "graph", "spec": "MC_Fees", "module": "Fees", "evkinds": FEES_EV, "need": need,
+            "control": other_amount_control, "quick_edges": 12000, "policy_extra": {"upstream_guards": list(upstream)}}
+
+
+def bridge_job(need, control=None):
+    """two deployments of the service joined by the hub (spec/Bridge.tla): the bytes one side announces are the bytes
+    the other side is handed"""
+    return {"kind": "graph", "spec": "MC_Bridge", "module": "Bridge", "evkinds": ITS_EVENTS, "need": need, "control": control,
+            "max_len": 40, "workers": 16, "quick_edges": 2500, "field_prefixes": ["A.", "B."],
+            "revisit": {"quick_budget": 800, "quick_arrival_budget": 800}}
 
 
 C04_NEED = ["Execute/ok", "Execute/approved", "Deliver/ok", "Deliver/is_receive_from_hub", "Deliver/hub_chain",
@@ -231,7 +273,9 @@ PROPS = {
             {"kind": "graph", "spec": "MC_C08", "cfg": "MC_C08_r%s" % r, "module": "Gateway", "evkinds": GW_EVENTS,
              "need": ["ApproveMessages/ok", "RotateSigners/ok", "ValidateProof/ok"] + ([] if r in ("9", "max", "max1") else ["ApproveMessages/retention", "RotateSigners/retention"]),
              "control": latest_proof_control}
-            for r in ["0", "1", "2", "9", "max", "max1"]
+            # "1d": retention 1 with a minimum rotation delay that never elapses (the clock stands still): a bypass rotation
+            # must still be honoured for every retained set, plain rotations are refused for the delay
+            for r in ["0", "1", "1d", "2", "9", "max", "max1"]
         ] + [
             {"kind": "graph", "spec": "MC_C08", "cfg": "MC_C08_%s" % r, "tiers": ["thorough"], "module": "Gateway", "evkinds": GW_EVENTS,
              "need": ["ApproveMessages/ok", "ApproveMessages/retention", "RotateSigners/retention"], "control": latest_proof_control}
@@ -330,16 +374,18 @@ PROPS = {
         "policy": {"guards": ["positive_amount", "negative_amount", "collector_auth", "sufficient_balance", "balance"],
                    "fields": ["bal", "collector"], "invariants": ["NonNegative"], "events": ["gas_paid", "gas_added", "gas_collected", "gas_refunded"], "rets": []},
         "jobs": [
-            {"kind": "graph", "spec": "MC_C14", "module": "GasService", "evkinds": ["gas_paid", "gas_added", "gas_collected", "gas_refunded"],
+            {"kind": "graph", "spec": "MC_C14", "init_owned": ["collector"], "module": "GasService", "evkinds": ["gas_paid", "gas_added", "gas_collected", "gas_refunded"],
              "need": ["PayGas/ok", "PayGas/positive_amount", "PayGas/balance", "AddGas/ok", "CollectFees/ok",
                       "CollectFees/collector_auth", "CollectFees/sufficient_balance", "Refund/ok", "Refund/collector_auth", "Refund/sufficient_balance"],
              "control": other_amount_control, "quick_edges": 25000},
             # owner and collector are the same address at deployment; ownership then moves on and back
             {"kind": "graph", "spec": "MC_C14R", "module": "GasService", "evkinds": ["gas_paid", "gas_added", "gas_collected", "gas_refunded", "ownership_transferred"],
              "need": ["CollectFees/ok", "CollectFees/collector_auth", "Refund/collector_auth", "TransferOwnership/ok"], "control": other_amount_control},
+            fees_job(["PayGas/ok", "OpExecute/ok", "OpExecute/sufficient_balance", "OpExecute/negative_amount", "CollectFees/collector_auth", "Refund/collector_auth"],
+                     upstream=["is_operator", "named_auth", "role_auth", "membership"]),
             GAS_TRACE,
         ],
-        "level_text": "TLC proves the step rules (exact movement between spender/receiver and the service, per-token conservation, pay-outs only with the collector's authorisation and never beyond the holding, one event with the same token and amount, rejected calls move nothing) on every transition of a finite instance (all interleavings); the transitions are executed against the real gas service with a Stellar asset contract and the natively registered interchain token, comparing every balance of both tokens after every step.",
+        "level_text": "TLC proves the step rules (exact movement between spender/receiver and the service, per-token conservation, pay-outs only with the collector's authorisation and never beyond the holding, one event with the same token and amount, rejected calls move nothing) on every transition of a finite instance (all interleavings); the transitions are executed against the real gas service with a Stellar asset contract and the natively registered interchain token, comparing every balance of both tokens after every step.  Composed with the operators contract as collector (spec/Fees.tla, MC_Fees): pay-outs only through a forwarded call of a current operator who authorised it; the gas part of every composed step is a GasService step.",
         "rule": "cases = transitions of the bounded TLC instance replayed against the contracts; distinct = distinct (abstract pre-state, action) pairs",
         "assumptions": ["soroban-env-host test mode implements on-chain semantics incl. the built-in Stellar asset contract", "bounds: 2 tokens x 3 units, 2 spenders, 2 receivers, amounts -1..3"],
     },
@@ -352,9 +398,10 @@ PROPS = {
              "evkinds": ["probe_call", "operator_added", "operator_removed", "ownership_transferred"],
              "need": ["Execute/ok", "Execute/is_operator", "Execute/named_auth", "Execute/target_ok", "AddOperator/ok",
                       "AddOperator/membership", "RemoveOperator/ok", "RemoveOperator/membership", "AddOperator/role_auth"],
-             "control": sibling_control(["op", "auth", "acct", "target"], "arg")},
+             "control": c17_control},
+            fees_job(["OpExecute/ok", "OpExecute/is_operator", "OpExecute/named_auth", "AddOperator/ok", "RemoveOperator/ok", "AddOperator/role_auth"]),
         ],
-        "level_text": "TLC proves member-and-authorised-only forwarding, owner-only set changes (add absent / remove present) and intact forwarding (one probe record with the same target, function and argument; value returned unchanged; failing target fails the whole call) on every transition of a finite instance whose membership is three-valued (never / member / former); all transitions are executed against the real operators contract with recording probe contracts as targets.",
+        "level_text": "TLC proves member-and-authorised-only forwarding, owner-only set changes (add absent / remove present) and intact forwarding (one probe record with the same target, function and argument; value returned unchanged; failing target fails the whole call) on every transition of a finite instance whose membership is three-valued (never / member / former); all transitions are executed against the real operators contract with recording probe contracts as targets.  Composed with the gas service whose collector the operators contract is (spec/Fees.tla, MC_Fees): forwarded collect_fees / refund / transfer_ownership with the authorisation given for the forwarding call, for the inner call only, or not at all.",
         "rule": "cases = transitions of the bounded TLC instance replayed against the contracts; distinct = distinct (membership history state, action) pairs",
         "assumptions": ["soroban-env-host test mode implements on-chain semantics", "bounds: 2 candidate operators, 2 owners, 2 probe targets, 4 return-value kinds"],
     },
@@ -460,9 +507,10 @@ PROPS = {
             # the canonical token is an interchain token built from the repository's source (not the pinned wasm)
             {"kind": "graph", "spec": "MC_C05", "cfg": "MC_C05_itk", "module": "ITS", "evkinds": ITS_EVENTS,
              "need": C05_NEED, "control": other_amount_control, "max_len": 40, "workers": 16},
+            bridge_job(["InterchainTransfer/ok", "Relay/ok", "Relay/registered", "Relay/origin_trusted", "DeployRemoteInterchainToken/ok", "DeployRemoteCanonical/ok"], other_amount_control),
             ITS_TRACE,
         ],
-        "level_text": "TLC proves custody = locked - released >= 0 with the canonical token's supply conserved, service-deployed supply changing only by outbound burns, inbound mints, the initial supply and minters' own mints, exact debit / gas / announcement on every successful outbound transfer (trusted destination, positive amount), exact credit inbound, and the frame rule, on every transition of a finite instance (all interleavings; every outbound transfer costs gas); the transitions are executed against the real service, gateway, gas service, a Stellar asset contract and the pinned interchain token; the announced payload bytes are decoded by the harness's own codec and compared field by field.",
+        "level_text": "TLC proves custody = locked - released >= 0 with the canonical token's supply conserved, service-deployed supply changing only by outbound burns, inbound mints, the initial supply and minters' own mints, exact debit / gas / announcement on every successful outbound transfer (trusted destination, positive amount), exact credit inbound, and the frame rule, on every transition of a finite instance (all interleavings; every outbound transfer costs gas); the transitions are executed against the real service, gateway, gas service, a Stellar asset contract and the pinned interchain token; the announced payload bytes are decoded by the harness's own codec and compared field by field.  Two deployments joined by the hub (spec/Bridge.tla, MC_Bridge): value conserved across chains, remote tokens carry the home side's id and metadata; the raw bytes one deployment announced are rewrapped as the hub does and handed to the other deployment.",
         "rule": "cases = transitions of the bounded TLC instance replayed against the contracts; distinct = distinct (abstract pre-state, action) pairs",
         "assumptions": ["soroban-env-host test mode implements on-chain semantics", "the harness's own ABI codec is cross-validated against Abi.tla by the C10 check", "bounds: 2 users, 2-3 tokens, amounts -1..3, gas budget 2-4 units"],
     },
@@ -491,23 +539,27 @@ PROPS = {
                    "fields": ["owner", "operator", "collector", "aux"],
                    "events": ["ownership_transferred", "operatorship_transferred"], "rets": []},
         "jobs": [
-            {"kind": "graph", "spec": "MC_C06_gateway", "module": "Gateway", "evkinds": GW_EVENTS,
+            {"kind": "graph", "spec": "MC_C06_gateway", "module": "Gateway", "evkinds": GW_EVENTS, "init_owned": ["owner", "operator"],
+             # skipping the rotation delay is the operator's privilege: a plain rotation inside the delay that goes through
+             # exercised it without the operator
+             "policy_extra": {"guards": ["role_auth", "operator_auth", "collector_auth", "upgrade_auth", "migrate_auth", "delay"]},
              "need": ["TransferOwnership/ok", "TransferOwnership/role_auth", "TransferOperatorship/ok", "TransferOperatorship/role_auth",
-                      "RotateSigners/ok", "RotateSigners/operator_auth"]},
+                      "RotateSigners/ok", "RotateSigners/operator_auth", "RotateSigners/delay"]},
             # owner and operator are the same address at construction
-            {"kind": "graph", "spec": "MC_C06_gateway", "cfg": "MC_C06_gateway_same", "module": "Gateway", "evkinds": GW_EVENTS,
+            {"kind": "graph", "spec": "MC_C06_gateway", "cfg": "MC_C06_gateway_same", "module": "Gateway", "evkinds": GW_EVENTS, "init_owned": ["owner", "operator"],
+             "policy_extra": {"guards": ["role_auth", "operator_auth", "collector_auth", "upgrade_auth", "migrate_auth", "delay"]},
              "need": ["TransferOwnership/ok", "TransferOwnership/role_auth", "TransferOperatorship/ok", "TransferOperatorship/role_auth",
                       "RotateSigners/ok", "RotateSigners/operator_auth"]},
-            {"kind": "graph", "spec": "MC_C06_gas", "module": "GasService", "evkinds": ["gas_collected", "gas_refunded", "ownership_transferred"],
+            {"kind": "graph", "spec": "MC_C06_gas", "init_owned": ["owner", "collector"], "module": "GasService", "evkinds": ["gas_collected", "gas_refunded", "ownership_transferred"],
              "need": ["CollectFees/ok", "CollectFees/collector_auth", "Refund/ok", "Refund/collector_auth", "TransferOwnership/ok", "TransferOwnership/role_auth"]},
-            {"kind": "graph", "spec": "MC_C06_ops", "module": "Operators", "evkinds": ["operator_added", "operator_removed", "ownership_transferred"],
+            {"kind": "graph", "spec": "MC_C06_ops", "init_owned": ["owner"], "module": "Operators", "evkinds": ["operator_added", "operator_removed", "ownership_transferred"],
              "need": ["AddOperator/ok", "AddOperator/role_auth", "RemoveOperator/ok", "RemoveOperator/role_auth", "TransferOwnership/ok", "TransferOwnership/role_auth"]},
-            {"kind": "graph", "spec": "MC_C06_token", "module": "Token", "evkinds": TOKEN_EVENTS,
+            {"kind": "graph", "spec": "MC_C06_token", "init_owned": ["owner"], "module": "Token", "evkinds": TOKEN_EVENTS,
              "need": ["AddMinter/ok", "AddMinter/role_auth", "RemoveMinter/ok", "RemoveMinter/role_auth", "Mint/ok", "Mint/role_auth", "TransferOwnership/ok", "TransferOwnership/role_auth"]},
-            {"kind": "graph", "spec": "MC_C06_its", "module": "ITS", "evkinds": ITS_EVENTS,
+            {"kind": "graph", "spec": "MC_C06_its", "init_owned": ["owner"], "module": "ITS", "evkinds": ITS_EVENTS,
              "need": ["SetTrusted/ok", "SetTrusted/role_auth", "RemoveTrusted/ok", "RemoveTrusted/role_auth", "TransferOwnership/ok", "TransferOwnership/role_auth"]},
         ] + [
-            {"kind": "graph", "spec": "MC_C15", "cfg": "MC_C15_%s" % t, "module": "Upgrade", "evkinds": ["upgraded", "ownership_transferred"],
+            {"kind": "graph", "spec": "MC_C15", "cfg": "MC_C15_%s" % t, "module": "Upgrade", "evkinds": ["upgraded", "ownership_transferred"], "init_owned": ["owner"],
              "need": ["Upgrade/ok", "Upgrade/role_auth", "Migrate/ok", "Migrate/role_auth", "UpgraderUpgrade/upgrade_auth", "UpgraderUpgrade/migrate_auth", "TransferOwnership/ok"]}
             for t in ["gateway", "gas", "operators", "its", "token"]
         ] + SMALL_TRACES,
